@@ -33,13 +33,14 @@ import dataclasses
 import enum
 import json
 import os
+import re
 import sys
 import tempfile
 from typing import Any, Dict, List, Optional, Set, Tuple, Union
 
 from bounded.common import Harness, outcome
 
-from jsonargparse import ActionConfigFile, ArgumentParser, Namespace, lazy_instance
+from jsonargparse import ActionConfigFile, ActionParser, ArgumentParser, Namespace, lazy_instance
 from jsonargparse._actions import _ActionSubCommands
 from jsonargparse._common import parser_context_vars
 from jsonargparse.typing import Path_fr
@@ -126,9 +127,36 @@ SHAPES = [
     ("Dict[str,Set[E]]", lambda E: Dict[str, Set[E]], lambda e: {"k0": {e(0), e(1)}}, True),
     ("List[Set[E]]", lambda E: List[Set[E]], lambda e: [{e(0), e(1)}], True),
 ]
+# quick tier: the slow element kinds (class specs, dataclasses) and the non-flat parser styles run on the shapes that matter most
 QUICK_NESTED_SHAPES = {"List[List[E]]", "Dict[str,List[E]]", "Tuple[List[E],int]", "List[Tuple[List[E],int]]"}
 QUICK_NESTED_ELEMS = {"int", "enum", "base"}
-STYLES = ["flat", "group", "subclass", "dataclass", "subcommand"]
+QUICK_SLOW_ELEMS = {"base", "dc"}
+QUICK_SLOW_SHAPES_FLAT = {"List[E]", "Dict[str,List[E]]", "Optional[List[E]]", "Tuple[List[E],int]", "Tuple[Dict[str,E],int]", "List[Tuple[List[E],int]]"}
+QUICK_SLOW_SHAPES_NESTED = {"List[List[E]]", "Tuple[List[E],int]"}
+RANDOM_SHAPES: list = []  # thorough tier: filled by main() from the seed before the workers are forked
+
+
+def random_shape(rng, depth):
+    """A random container type of the given depth over the element type E, with its value builder."""
+    if depth == 0:
+        pick = rng.randrange(2)
+        return ("E", lambda E: E, (lambda e: e(0)) if pick == 0 else (lambda e: e(1)))
+    ctor = rng.choice(["List", "Dict", "Tuple2", "TupleE", "Optional", "Union"])
+    n1, t1, b1 = random_shape(rng, depth - 1)
+    if ctor == "List":
+        n2, t2, b2 = n1, t1, b1
+        return (f"List[{n1}]", lambda E: List[t1(E)], lambda e: [b1(e), b1(e)])
+    if ctor == "Dict":
+        return (f"Dict[str,{n1}]", lambda E: Dict[str, t1(E)], lambda e: {"k0": b1(e), "k1": b1(e)})
+    if ctor == "Tuple2":
+        n2, t2, b2 = random_shape(rng, depth - 1)
+        return (f"Tuple[{n1},{n2}]", lambda E: Tuple[t1(E), t2(E)], lambda e: (b1(e), b2(e)))
+    if ctor == "TupleE":
+        return (f"Tuple[{n1},...]", lambda E: Tuple[t1(E), ...], lambda e: (b1(e), b1(e)))
+    if ctor == "Optional":
+        return (f"Optional[{n1}]", lambda E: Optional[t1(E)], b1)
+    return (f"Union[bool,{n1}]", lambda E: Union[bool, t1(E)], b1)
+STYLES = ["flat", "group", "subclass", "dataclass", "subcommand", "inner", "nargs"]
 
 
 def to_json(v):
@@ -393,9 +421,22 @@ def fresh_dataclass(name, T, mk_default_d):
 class Spec:
     """One parser of the grammar: how to build it, how to wrap a value for it, where the value ends up."""
 
-    def __init__(self, style, T, mk_conv, mk_canon):
-        self.style, self.T, self.mk_conv, self.mk_canon = style, T, mk_conv, mk_canon
-        self.key = {"flat": "v", "group": "g.v", "subclass": "k.init_args.v", "dataclass": "g.v", "subcommand": "sub.v"}[style]
+    def __init__(self, style, T, mk_conv, mk_canon, E=None):
+        self.style, self.T, self.mk_conv, self.mk_canon, self.E = style, T, mk_conv, mk_canon, E
+        self.key = {"flat": "v", "group": "g.v", "subclass": "k.init_args.v", "dataclass": "g.v", "subcommand": "sub.v", "inner": "g.v", "nargs": "v"}[style]
+
+    def describe(self, tname):
+        conv = to_json(self.mk_conv())
+        head = "ArgumentParser(exit_on_error=False, env_prefix='APP'); --cfg ActionConfigFile; "
+        return head + {
+            "flat": f"--v: {tname}; --d: {tname} = <conv value {conv} (tuples/sets as such)>" + ("; --c: same type, default = canonical value" if self.mk_canon else ""),
+            "group": f"add_class_arguments(KGroup, 'g') with KGroup.__init__(self, v: Optional[{tname}] = None, d: {tname} = <conv value {conv}>)",
+            "subclass": f"--k: KSub = {{class_path: KSub}} with KSub.__init__(self, v: Optional[{tname}] = None, d: {tname} = <conv value {conv}>)",
+            "dataclass": f"--g: KData = KData() with dataclass KData(v: Optional[{tname}] = None, d: {tname} = field(default_factory=<conv value {conv}>))",
+            "subcommand": f"subcommands(required=False): sub(--v: {tname}; --d: {tname} = <conv value {conv}>), other(--w: int = 0)",
+            "inner": f"--g = ActionParser(inner) with inner(--v: {tname}; --d: {tname} = <conv value {conv}>)",
+            "nargs": f"add_argument('--v', type=<element type of {tname}>, nargs='+'); add_argument('--d', same, default={conv})",
+        }[self.style]
 
     def build(self):
         T = self.T
@@ -422,13 +463,21 @@ class Spec:
             sc = p.add_subcommands(required=False)
             sc.add_subcommand("sub", sub)
             sc.add_subcommand("other", other)
+        elif self.style == "inner":
+            inner = ArgumentParser(exit_on_error=False)
+            inner.add_argument("--v", type=T)
+            inner.add_argument("--d", type=T, default=self.mk_conv())
+            p.add_argument("--g", action=ActionParser(parser=inner))
+        elif self.style == "nargs":
+            p.add_argument("--v", type=self.E, nargs="+")
+            p.add_argument("--d", type=self.E, nargs="+", default=self.mk_conv())
         return p
 
     def wrap(self, val, ns=False):
         mk = (lambda **kw: Namespace(**kw)) if ns else (lambda **kw: dict(**kw))
-        if self.style == "flat":
+        if self.style in ("flat", "nargs"):
             return mk(v=val)
-        if self.style in ("group", "dataclass"):
+        if self.style in ("group", "dataclass", "inner"):
             return mk(g=mk(v=val))
         if self.style == "subclass":
             return mk(k=mk(class_path=f"{M}.KSub", init_args=mk(v=val)))
@@ -440,6 +489,8 @@ class Spec:
             return ["sub", "--v", js]
         if self.style == "subclass":
             return [f"--k={M}.KSub", f"--k.init_args.v={js}"]
+        if self.style == "nargs":
+            return ["--v"] + [str(x) for x in to_json(val)]
         return [f"--{self.key}={js}"]
 
 
@@ -471,8 +522,8 @@ def raw_ops(h, spec, mkval, case, tmp, thorough):
     run("parse_path", p, lambda: p.parse_path(path), {})
     p, argv = P(), ["--cfg", path]
     run("parse_args", p, lambda: p.parse_args(argv), {"args": argv})
-    if spec.style in ("flat", "group", "dataclass"):
-        env_name = "APP_V" if spec.style == "flat" else "APP_G__V"
+    if spec.style in ("flat", "group", "dataclass", "inner", "nargs"):
+        env_name = "APP_V" if spec.style in ("flat", "nargs") else "APP_G__V"
         p, env = P(), {env_name: json.dumps(to_json(mkval())), "HOME": "/nonexistent"}
         run("parse_env", p, lambda: p.parse_env(env), {"env": env})
         p = P()
@@ -852,7 +903,7 @@ class Rec:
         self.distinct.append(sig)
 
     def note(self, txt):
-        self.notes.append(txt)
+        self.notes.append(re.sub(r"0x[0-9a-f]+", "0x..", txt))
 
 
 def grid_unit(h, style, shape, tmp):
@@ -860,15 +911,21 @@ def grid_unit(h, style, shape, tmp):
     for ename, el in ELEMS.items():
         if need_hashable and not el["hashable"]:
             continue
-        if style != "flat" and not h.thorough and (sname not in QUICK_NESTED_SHAPES or ename not in QUICK_NESTED_ELEMS):
+        if style == "nargs" and (sname != "List[E]" or ename not in ("int", "float", "enum")):
             continue
+        if not h.thorough and style != "nargs":
+            if style != "flat" and (sname not in QUICK_NESTED_SHAPES or ename not in QUICK_NESTED_ELEMS):
+                continue
+            if ename in QUICK_SLOW_ELEMS and sname not in (QUICK_SLOW_SHAPES_FLAT if style == "flat" else QUICK_SLOW_SHAPES_NESTED):
+                continue
         T = styp(el["T"])
 
         def maker(kind, el=el):
             return lambda: sbuild(lambda i: copy.deepcopy(el[kind][i]))
 
-        spec = Spec(style, T, maker("conv"), maker("canon") if "canon" in el else None)
-        base_case = {"style": style, "type": sname.replace("E", ename), "parser": "Spec(style, type).build() in bounded/b08_noninterference.py", "module": M}
+        spec = Spec(style, T, maker("conv"), maker("canon") if "canon" in el else None, E=el["T"])
+        tname = sname.replace("E", ename)
+        base_case = {"style": style, "type": tname, "parser": spec.describe(tname), "input_wrapping": str(to_json(spec.wrap("<value>"))), "module": M}
         for kind in ("canon", "conv", "bad"):
             if kind not in el:
                 continue
@@ -898,6 +955,8 @@ def work(unit):
         try:
             if what == "grid":
                 grid_unit(rec, unit[2], SHAPES[unit[3]], tmp)
+            elif what == "random":
+                grid_unit(rec, "flat", RANDOM_SHAPES[unit[2]], tmp)
             elif what == "inst2":
                 instantiate_twice(rec)
             elif what == "world":
@@ -915,7 +974,7 @@ def work(unit):
 def main():
     h = Harness(
         "b08_noninterference",
-        rule="parser style {flat, class group, subclass init_args, dataclass type, subcommand} x container shape (16 shapes: lists/dicts, and lists/dicts/sets "
+        rule="parser style {flat, class group, subclass init_args, dataclass type, subcommand, inner parser (ActionParser), nargs='+'} x container shape (16 shapes: lists/dicts, and lists/dicts/sets "
         "below tuples, tuples below lists/sets) x element kind {int, float, Enum, Optional[int], subclass spec, dataclass} x value kind {canonical, "
         "needs conversion, wrong at the last position} x operation; a fresh parser per operation; one evaluation per observed argument and per world "
         "item (declared defaults, cwd, environ, argparse) per call; non-trivial = distinct (style, shape, element, value kind | derived) whose value "
@@ -923,6 +982,14 @@ def main():
     )
     units = [(h.thorough, "inst2"), (h.thorough, "world")]
     units += [(h.thorough, "grid", style, n) for style in STYLES for n in range(len(SHAPES))]
+    if h.thorough:  # seeded random container types of depth 3 (flat style), beyond the fixed shapes
+        seen = {s[0] for s in SHAPES}
+        while len(RANDOM_SHAPES) < 64:
+            name, typ, build = random_shape(h.rng, 3)
+            if name.count("[") >= 3 and name not in seen:
+                seen.add(name)
+                RANDOM_SHAPES.append((name, typ, build, False))
+        units += [(h.thorough, "random", n) for n in range(len(RANDOM_SHAPES))]
     import multiprocessing
 
     workers = min(16, os.cpu_count() or 1)
@@ -948,7 +1015,8 @@ def main():
         h.check(st.get("ok", 0) > 0 and st.get("exc", 0) + st.get("exit", 0) > 0, f"c08:vacuity:{op}", f"accepted and rejected calls must both occur: {st}", None)
     h.sample({"calls_by_operation_and_outcome": stats})
     h.notes = sorted(set(h.notes))[:40]
-    grid = "all 5 styles x 16 shapes x 6 element kinds" if h.thorough else "flat style: 16 shapes x 6 element kinds; other 4 styles: 4 shapes x 3 element kinds"
+    grid = ("6 styles x 16 shapes x 6 element kinds + 64 seeded random depth-3 container types (flat style) x 6 element kinds; nargs='+' x {int, float, Enum}" if h.thorough else
+            "flat style: 16 shapes x {int, float, Enum, Optional[int]} + 6 shapes x {class spec, dataclass}; other 5 styles: 4 shapes x {int, Enum} + 2 shapes x {class spec}; nargs='+' x {int, float, Enum}")
     sys.exit(h.finish(exhaustive=True, bound=grid + " (hashable element kinds only inside sets) x 3 value kinds x 19 raw calls + 4 derived configurations x 11 calls + "
                       "6 argument-less calls; 21 class-spec placements x <= 3 inputs x 3 sources instantiated twice; 25 cwd/environ/argparse cases x 3 "
                       "operations + parse_path/parse_env/save cases"))
